@@ -92,10 +92,27 @@ NULL_CONTRACT = {"maximum": "propagate", "minimum": "propagate", "fmax": "ignore
 DOC_KEYWORDS = {"propagate": ("propogate missing", "propagate missing"), "ignore": ("ignore missing",)}
 
 # characters special inside a string literal, per dialect (besides the string quote itself)
+# characters (other than the quote itself) that are special inside a quoted string literal of the dialect
+#   MySQL: backslash is an escape character unless NO_BACKSLASH_ESCAPES is set (MySQL manual 9.1.1 "String Literals")
+#   BigQuery: backslash starts an escape sequence; a quoted (non triple-quoted) string cannot contain a raw newline
+#             (GoogleSQL lexical structure, "String and bytes literals")
+#   Spark SQL: backslash escapes unless spark.sql.parser.escapedStringLiterals=true (Spark SQL reference, "Literals")
+#   SQLite / PostgreSQL (standard_conforming_strings=on, the default since 9.1): only the quote
 STRING_LITERAL_SPECIALS = {
-    "SQLiteModel": set(), "PostgreSQLModel": set(),           # standard_conforming_strings: only the quote
-    "MySQLModel": {"\\"}, "BigQueryModel": {"\\"}, "SparkSQLModel": {"\\"},
+    "SQLiteModel": set(), "PostgreSQLModel": set(),
+    "MySQLModel": {"\\"}, "BigQueryModel": {"\\", "\n"}, "SparkSQLModel": {"\\"},
     "PolarsSQLModel": set(),
+}
+# how the dialect lets a literal contain its own quote character
+#   BigQuery: backslash escape only; adjacent literals "a""b" are not one literal (GoogleSQL lexical structure)
+QUOTE_ESCAPE_STYLE = {
+    "SQLiteModel": {"double"}, "PostgreSQLModel": {"double"}, "MySQLModel": {"double", "backslash"},
+    "SparkSQLModel": {"double", "backslash"}, "BigQueryModel": {"backslash"},
+}
+# characters special inside a quoted identifier (other than the quote, which quote_identifier rejects)
+#   BigQuery: quoted identifiers "have the same escape sequences as string literals" (GoogleSQL lexical structure)
+IDENTIFIER_SPECIALS = {
+    "SQLiteModel": set(), "PostgreSQLModel": set(), "MySQLModel": set(), "SparkSQLModel": set(), "BigQueryModel": {"\\"},
 }
 
 POSTGRESQL_JOIN_KEYWORDS = {"INNER JOIN", "LEFT JOIN", "RIGHT JOIN", "FULL JOIN", "CROSS JOIN",
